@@ -18,6 +18,10 @@ ASSUMPTIONS = [
 def run(check):
     check.run_rule('C14.R1', lambda c: rule_eq_totality(c, 'C14.R1', 'C14.R2'))
     check.run_rule('C14.R3', lambda c: rule_replace_and_slots(c, 'C14.R3'))
+    from ..rules_classes import rule_eq_does_not_evaluate
+    check.run_rule('C14.R1e', lambda c: rule_eq_does_not_evaluate(c, 'C14.R1'))
+    from ..rules_classes import rule_iterable_traversed_once
+    check.run_rule('C14.R5', lambda c: rule_iterable_traversed_once(c, 'C14.R5'))
     from ..rules_classes import rule_upgrade_idempotent
     check.run_rule('C14.R3b', lambda c: rule_upgrade_idempotent(c, 'C14.R3'))
     from ..rules_classes import rule_sibling_eq
